@@ -64,7 +64,8 @@ def run_job(job, wdir, idx):
     if os.path.exists(job.trace):
         os.remove(job.trace)
     exe = os.path.join(bdir, job.driver)
-    rc, out = run([exe, script, job.trace], timeout=3600)
+    env = {"TSAN_OPTIONS": "halt_on_error=1:exitcode=66:second_deadlock_stack=1"} if job.cfg == "tsan" else None
+    rc, out = run([exe, script, job.trace], timeout=3600, env=env)
     if rc != 0:
         raise InfraError("driver %s failed rc=%d: %s" % (job.driver, rc, out[-2000:]))
     job.events = sanitize_trace(job.trace)
@@ -275,6 +276,33 @@ def conformance(jobs):
             elif len(drifts) < 5:
                 drifts.append({"cfg": job.cfg, "header": job.execs[i][0], "cmds": job.execs[i][1], "expected": pl,
                                "observed": steps.get(i, [])})
+    # VirtualBlocks: the commit / decommit / release calls the model predicts (header key `vmexpect`, c = commit,
+    # x = refused commit, d = decommit of block n; r = release from page n) against the recorded `vm` events
+    for job in jobs:
+        vme = {i: [t for t in h["vmexpect"].split(".") if t] for i, (h, c) in enumerate(job.execs) if "vmexpect" in h}
+        if not vme:
+            continue
+        seen, xn = {}, -1
+        with open(job.trace) as f:
+            for ln in f:
+                if ln.startswith('{"e":"x"'):
+                    xn += 1
+                elif xn in vme and ln.startswith('{"e":"vm"'):
+                    e = json.loads(ln)
+                    per = max(1, int(job.execs[xn][0].get("bs", 4096)) // 4096)
+                    if e["k"] == "commit":
+                        seen.setdefault(xn, []).append(("c" if e["ok"] else "x") + str(e["off"] // per))
+                    elif e["k"] == "decommit":
+                        seen.setdefault(xn, []).append("d" + str(e["off"] // per))
+                    elif e["k"] == "release":
+                        seen.setdefault(xn, []).append("r" + str(e["off"]))
+        for i, exp in vme.items():
+            checked += 1
+            if seen.get(i, []) == exp:
+                matched += 1
+            elif len(drifts) < 5:
+                drifts.append({"cfg": job.cfg, "header": job.execs[i][0], "cmds": job.execs[i][1], "expected": exp,
+                               "observed": seen.get(i, [])})
     return {"executions_with_model_prediction": checked, "matched": matched, "drift_samples": drifts}
 
 
